@@ -245,6 +245,16 @@ def conformance(arg):
             p_.parent.mkdir(parents=True, exist_ok=True)
             p_.write_text(text)
         refarr = ", ".join(repr(float(ref[i])) for i in range(nelem))
+        # second reference: another species vector (absolute densities); its element ratios define ref2
+        absp = {slots[s_]: ABVALS[(i + 2) % len(ABVALS)] * (i + 2) * 1000 for i, s_ in enumerate(species)}
+        refsparr = ", ".join(repr(float(absp.get(i, 0))) for i in range(neq))
+        tot2 = {e: P.evaluate(ea[sl], lambda sym: absp[int(sym.split(":")[1])]) for e, sl in elem_slots.items()}
+        ref2 = {sl: tot2[e] / tot2["H"] for e, sl in elem_slots.items()}
+        r2 = solve(M, [ref2[i] for i in range(nelem)])
+        exp2 = {}
+        if r2 is not None:
+            for s_, sl in slots.items():
+                exp2[sl] = float(P.evaluate(factors[sl], lambda sym: ab[int(sym[3:])] if sym.startswith("ab:") else r2[int(sym[5:])]))
         abarr = ", ".join(repr(float(ab.get(i, 0))) for i in range(neq))
         (d / "driver.cpp").write_text(f"""
 #include <stdio.h>
@@ -254,9 +264,17 @@ int main() {{
     Naunet n; n.Init();
     double ref[NELEMENTS] = {{ {refarr} }};
     double ab[NEQUATIONS] = {{ {abarr} }};
+    /* opt 0: element abundances that are NOT pre-normalised to hydrogen (scaled by 3.7) */
+    for (int i = 0; i < NELEMENTS; i++) ref[i] *= 3.7;
     n.SetReferenceAbund(ref, 0);
     int rc = n.Renorm(ab);
-    FILE *o = fopen("out.bin", "wb"); fwrite(ab, sizeof(double), NEQUATIONS, o); fclose(o);
+    FILE *o = fopen("out.bin", "wb"); fwrite(ab, sizeof(double), NEQUATIONS, o);
+    /* opt 1: the reference is given as a species abundance vector (absolute densities) */
+    double ab2[NEQUATIONS] = {{ {abarr} }};
+    double refsp[NEQUATIONS] = {{ {refsparr} }};
+    n.SetReferenceAbund(refsp, 1);
+    rc |= n.Renorm(ab2);
+    fwrite(ab2, sizeof(double), NEQUATIONS, o); fclose(o);
     n.Finalize();
     return rc;
 }}
@@ -271,11 +289,15 @@ int main() {{
         pr = subprocess.run(["./drv"], cwd=str(d), capture_output=True, timeout=120)
         if pr.returncode != 0:
             return 1, [(f"C16:renorm-returns-failure:{backend}", f"{'+'.join(species)} [{backend}]: Renorm returned {pr.returncode}", case)]
-        got = struct.unpack(f"<{neq}d", (d / "out.bin").read_bytes())
+        both = struct.unpack(f"<{2*neq}d", (d / "out.bin").read_bytes())
+        got, got2 = both[:neq], both[neq:]
         for sl, e in exp.items():
             if abs(got[sl] - e) > 1e-9 * max(abs(e), 1e-300):
-                return 1, [(f"C16:compiled-renorm-differs:{backend}", f"{'+'.join(species)} [{backend}]: compiled Renorm gives ab[{sl}] = {got[sl]!r}, exact solution of the emitted system {e!r}", case)]
-        return 1, []
+                return 1, [(f"C16:compiled-renorm-differs:{backend}:opt0", f"{'+'.join(species)} [{backend}]: SetReferenceAbund(ref, 0) with un-normalised element abundances, then Renorm: ab[{sl}] = {got[sl]!r}, exact solution for ref/ref_H {e!r}", case)]
+        for sl, e in exp2.items():
+            if abs(got2[sl] - e) > 1e-9 * max(abs(e), 1e-300):
+                return 1, [(f"C16:compiled-renorm-differs:{backend}:opt1", f"{'+'.join(species)} [{backend}]: SetReferenceAbund(species vector, 1), then Renorm: ab[{sl}] = {got2[sl]!r}, exact solution {e!r}", case)]
+        return 2, []
     finally:
         shutil.rmtree(d, ignore_errors=True)
 
@@ -289,7 +311,9 @@ def run(ctx):
         ctx.absorb(viols)
     clean = [sp for sp in sets if not any(x.startswith("GRAIN") for x in sp) and all(any(len(COMP[a]) == 1 and a in COMP and list(COMP[a]) == [e] and not a.endswith(("+", "-")) and not a.startswith("#") and sum(COMP[a].values()) == 1 for a in sp) for x in sp for e in COMP[x])]
     step = 12 if ctx.tier == "quick" else 3
-    conf = [(sp, b) for i, sp in enumerate(clean) if i % step == ctx.seed % step for b in ("dense", "rosenbrock4")]
+    always = [["H", "O"], ["H", "C", "O", "CO"], ["H", "D", "HD", "O"], ["H", "H2", "e-", "O"]]  # H first / middle / with electrons
+    chosen = [sp for sp in always if sp in clean] + [sp for i, sp in enumerate(clean) if i % step == ctx.seed % step and sp not in always]
+    conf = [(sp, b) for sp in chosen for b in ("dense", "rosenbrock4")]
     nconf = 0
     for k, viols in ctx.pmap(conformance, conf):
         nconf += k
